@@ -133,6 +133,14 @@ def run(ctx):
     ctx.ob('decode-loop', 'ends-only-on-none', ok_loop,
            f'the decoding loop condition `{ast.unparse(t)}` also stops on a zero byte (truthiness of an int | None)',
            py.where('deserialize', loop))
+    # --- the opcode dispatched on is the byte the loop condition read, unchanged
+    read_name = t.left.target.id if isinstance(t, ast.Compare) and isinstance(t.left, ast.NamedExpr) and isinstance(t.left.target, ast.Name) else None
+    arg0 = conv0[0].value.args[0] if len(conv0[0].value.args) == 1 and not conv0[0].value.keywords else None
+    rebound = [n for st in loop.body for n in ast.walk(st) if isinstance(n, ast.Name) and n.id == read_name and isinstance(n.ctx, ast.Store)
+               and n.lineno <= conv0[0].lineno]
+    ctx.ob('decode-loop', 'opcode-is-the-byte-read', read_name is not None and isinstance(arg0, ast.Name) and arg0.id == read_name and not rebound,
+           f'the instruction dispatched on must be Instruction(<the byte the loop condition read>); found `{ast.unparse(conv0[0])}` for the '
+           f'byte bound by `{ast.unparse(t)}`: every opcode would be decoded as another one', py.where('deserialize', conv0[0]))
     # --- unknown input raises
     conv = [n for n in loop.body if isinstance(n, ast.Assign) and isinstance(n.value, ast.Call)
             and ast.unparse(n.value.func) == 'Instruction']
@@ -398,6 +406,71 @@ def run(ctx):
                     used[pname] = s
                 ctx.ob('reader-slots', f'{op}/{meth}', not probs, f'{op}: ' + '; '.join(probs), where,
                        facts={'reader': {k: _slot_txt(v) for k, v in used.items()}, 'tracker': {k: _slot_txt(v) for k, v in binds.items()}})
+                # (3b) operand order: the k-th operand the serializer writes comes from parameter p_k of the call; the deserializer must
+                #      hand the k-th operand it reads to that same parameter (a swap replays another term although the layout agrees)
+                for meth_w, case in writer[op]:
+                    if meth_w != meth:
+                        continue
+                    W = []
+                    for o in case['operands']:
+                        if o[0] in ('scalar', 'len') and o[1][0] == 'param':
+                            W.append(o[1][1])
+                        elif o[0] == 'names' and o[1][0] == 'param' and W and W[-1] == o[1][1]:
+                            continue
+                        else:
+                            W = None
+                            break
+                    if not W:
+                        continue
+                    R = []
+                    for x in rd:
+                        if x[0] in ('S', 'L'):
+                            R.append(x[-1])
+                        elif x[0] == 'rep' and x[1] == 'L' and x[2][0] == 'const':
+                            R.extend(('item', x[-1], j) for j in range(x[2][1]))
+                        else:
+                            R = None
+                            break
+                    if R is None or len(R) != len(W) or len(set(R)) != len(R):
+                        continue                      # layout disagreement is rule reader-layout; identical reads cannot be told apart
+                    def seq_items(v):
+                        """the elements of a counted sequence of reads, of its reversal, or of a constant slice of it; else None"""
+                        reps = [x for x in rd if x[0] == 'rep' and x[-1] == v and x[2][0] == 'const']
+                        if len(reps) == 1:
+                            return [('item', v, j) for j in range(reps[0][2][1])]
+                        if v[0] == 'call' and v[1] in (('name', 'reversed'), ('name', 'list'), ('name', 'tuple')) and len(v[2]) == 1:
+                            inner = seq_items(v[2][0])
+                            return None if inner is None else (inner[::-1] if v[1][1] == 'reversed' else inner)
+                        if v[0] == 'sub' and isinstance(v[2], tuple) and v[2][0] == 'slice':
+                            inner = seq_items(v[1])
+                            b = [None if x is None else (x[1] if x[0] == 'const' else ...) for x in v[2][1:4]]
+                            if inner is None or ... in b:
+                                return None
+                            return inner[slice(*b)]
+                        return None
+
+                    args = []
+                    for a in c[2]:
+                        if a[0] == 'star':
+                            its = seq_items(a[1])
+                            if its is None:
+                                break                 # positions after an unpacked sequence of unknown length are unknown
+                            args.extend(its)
+                        elif a[0] == 'sub' and a[2][0] == 'const' and isinstance(a[2][1], int) and seq_items(a[1]) is not None \
+                                and -len(seq_items(a[1])) <= a[2][1] < len(seq_items(a[1])):
+                            args.append(seq_items(a[1])[a[2][1]])
+                        else:
+                            args.append(a)
+                    got_by_param = dict(zip(params, args))
+                    ctx.require(all(pn in got_by_param for pn in W),
+                                f'deserialize_instructions/{op}: cannot tell which argument of {meth}() receives the operands read '
+                                f'(unpacked sequence that is not a counted sequence of reads)')
+                    wrong = [f'operand {k + 1} (written from `{pn}`) is passed as ' +
+                             (f'`{[q for q, v in got_by_param.items() if v == R[k]][0]}`' if R[k] in got_by_param.values() else 'no argument')
+                             for k, pn in enumerate(W) if got_by_param.get(pn) != R[k]]
+                    ctx.ob('reader-order', f'{op}/{meth}', not wrong, f'{op}: ' + '; '.join(wrong)
+                           + ' - the replayed call differs from the recorded one although the layout agrees', where,
+                           facts={'written from': W})
                 # (4) element type of constraint lists: the serializer reads `.name` of each element
                 if op == 'MetaVar':
                     names_ops = [o for _m, c2 in writer[op] for o in c2['operands'] if o[0] == 'names']
